@@ -190,13 +190,31 @@ Qed.
 Lemma sn_members_lt : forall s, Forall (fun m => m < i64_max) (sn_members s).
 Proof. intros s. apply sn_members_from_lt. Qed.
 
+Lemma raise_range_ok : forall p first last, wproxy_ok C p -> last < i64_max ->
+  exists p', raise_range p first last = Ok p' /\ wproxy_ok C p' /\ wp_guid p' = wp_guid p.
+Proof.
+  intros p first last H Hl. unfold raise_range. rewrite (avail_max_ok p H). cbn [bind].
+  eexists; split; [reflexivity|]. destruct (_ <=? _); cbn [andb]; [|auto].
+  destruct (Z.ltb_spec (wp_high p) last); [|auto].
+  destruct p as [g0 fi0 l0 h0 m0 hb0 hbf0 an0 nf0 fr0]; destruct H as (A & B & D & E); wpk.
+  split; [|reflexivity]. repeat split; try tauto; lia.
+Qed.
+Lemma raise_all_ok : forall ms p, wproxy_ok C p -> Forall (fun m => m < i64_max) ms ->
+  exists p', raise_all ms p = Ok p' /\ wproxy_ok C p' /\ wp_guid p' = wp_guid p.
+Proof.
+  induction ms as [|m t IH]; intros p H Hm; cbn [raise_all]; [eexists; split; [reflexivity|auto]|].
+  inversion Hm; subst. destruct (raise_range_ok p m m H H2) as (q & E1 & E2 & E3). rewrite E1. cbn [bind].
+  destruct (IH q E2 H3) as (p' & F1 & F2 & F3). exists p'. split; [exact F1|]. split; [exact F2|congruence].
+Qed.
 Lemma gap_proxy_ok : forall start gl p, wproxy_ok C p -> ss_base gl <= i64_max ->
   exists p', gap_proxy start gl p = Ok p' /\ wproxy_ok C p' /\ wp_guid p' = wp_guid p.
 Proof.
   intros start gl p H Hb. unfold gap_proxy.
-  eexists; split; [reflexivity|]. split.
-  - apply fold_raise_ok; [|apply sn_members_lt]. destruct (start <? ss_base gl); [apply raise_high_ok; [exact H|lia]|exact H].
-  - rewrite fold_raise_guid. destruct (start <? ss_base gl); [apply raise_high_guid|reflexivity].
+  assert (exists p1, (if start <? ss_base gl then raise_range p start (ss_base gl - 1) else Ok p) = Ok p1 /\
+                     wproxy_ok C p1 /\ wp_guid p1 = wp_guid p) as (p1 & E1 & E2 & E3).
+  { destruct (start <? ss_base gl); [apply raise_range_ok; [exact H|lia]|eexists; split; [reflexivity|auto]]. }
+  rewrite E1. cbn [bind]. destruct (raise_all_ok (sn_members gl) p1 E2 (sn_members_lt gl)) as (p' & F1 & F2 & F3).
+  exists p'. split; [exact F1|]. split; [exact F2|congruence].
 Qed.
 
 Lemma hbf_proxy_ok : forall count p, wproxy_ok C p -> wproxy_ok C (hbf_proxy count p) /\ wp_guid (hbf_proxy count p) = wp_guid p.
